@@ -60,6 +60,9 @@ type Step struct {
 	Size int    `json:"size,omitempty"`
 	Val  int    `json:"val,omitempty"`
 	W    int    `json:"w,omitempty"` // flush: which of the two flush goroutines moves
+	// setmd / delmd: the client operation is parked between its update in memory and the
+	// flusher being told about it while flush goroutine W moves During steps.
+	During int `json:"during,omitempty"`
 }
 
 type Case struct {
@@ -80,8 +83,16 @@ func gen(t *rapid.T) Case {
 		case "create":
 			s.Size = rapid.IntRange(0, 16).Draw(t, "size")
 			s.Val = rapid.IntRange(1, 250).Draw(t, "val")
-		case "setmd":
-			s.Val = rapid.IntRange(1, 250).Draw(t, "val")
+		case "setmd", "delmd":
+			if s.Kind == "setmd" {
+				s.Val = rapid.IntRange(1, 250).Draw(t, "val")
+			}
+			if rapid.IntRange(0, 2).Draw(t, "split") == 0 {
+				s.During = rapid.IntRange(1, 4).Draw(t, "during")
+				if rapid.IntRange(0, 3).Draw(t, "w") == 0 {
+					s.W = 1
+				}
+			}
 		case "flush":
 			// mostly the first flush goroutine, so that single flushes still get far
 			if rapid.IntRange(0, 3).Draw(t, "w") == 0 {
@@ -111,6 +122,61 @@ type flusherCtl struct {
 	mu  sync.Mutex
 	byG map[uint64]*worker
 	w   [2]*worker
+
+	// a client metadata operation that is to be parked at store.beforeMarkMetadataDirty
+	clientG   uint64
+	clientArr chan struct{}
+	clientRel chan struct{}
+}
+
+// splitClientOp runs op (a SetMetadata / DeleteMetadata) on its own goroutine, parks it
+// between its update in memory and the flusher notification, lets flush goroutine w move
+// up to n steps, and lets op finish. parked reports whether op reached the point (it does
+// not when the blob is not in the memory tier).
+func (f *flusherCtl) splitClientOp(op func() error, w, n int, note func(string)) (err error, parked bool, stuck bool) {
+	done := make(chan error, 1)
+	ready := make(chan struct{})
+	f.mu.Lock()
+	f.clientArr, f.clientRel = make(chan struct{}), make(chan struct{})
+	f.mu.Unlock()
+	go func() {
+		f.mu.Lock()
+		f.clientG = gid()
+		f.mu.Unlock()
+		close(ready)
+		e := op()
+		f.mu.Lock()
+		f.clientG = 0
+		f.mu.Unlock()
+		done <- e
+	}()
+	<-ready
+	select {
+	case e := <-done:
+		return e, false, false
+	case <-f.clientArr:
+	case <-time.After(20 * time.Second):
+		return nil, false, true
+	}
+	for i := 0; i < n; i++ {
+		r := f.step(w % 2)
+		note(r)
+		if r == "STUCK" {
+			close(f.clientRel)
+			<-done
+			return nil, true, true
+		}
+		if r == "idle" {
+			break
+		}
+	}
+	close(f.clientRel)
+	select {
+	case e := <-done:
+		return e, true, false
+	case <-time.After(20 * time.Second):
+		return nil, true, true
+	}
 }
 
 func newFlusherCtl(st *tiered.Store) *flusherCtl {
@@ -135,9 +201,17 @@ func gid() uint64 {
 }
 
 func (f *flusherCtl) yield(point, key string) {
+	g := gid()
 	f.mu.Lock()
-	w := f.byG[gid()]
+	w := f.byG[g]
+	client := f.clientG != 0 && f.clientG == g
+	arr, rel := f.clientArr, f.clientRel
 	f.mu.Unlock()
+	if client && point == "store.beforeMarkMetadataDirty" {
+		arr <- struct{}{}
+		<-rel
+		return
+	}
 	if w == nil {
 		return
 	}
@@ -398,7 +472,20 @@ func run(c Case) pbt.Verdict {
 			b.complete = true
 			note("%d: complete %s", si, name)
 		case "setmd":
-			err := st.SetMetadata(name, &md{V: []byte{byte(s.Val)}})
+			var err error
+			if s.During > 0 {
+				var parked, stuck bool
+				err, parked, stuck = fc.splitClientOp(func() error { return st.SetMetadata(name, &md{V: []byte{byte(s.Val)}}) }, s.W, s.During,
+					func(r string) { note("%d:   (setmd %s parked before telling the flusher) flusher %d -> %s", si, name, s.W%2, r) })
+				if stuck {
+					return pbt.Verdict{Discard: true, Classes: []string{"flusher-stuck"}}
+				}
+				if parked {
+					classes["md-update-parked-before-flusher-notification"] = true
+				}
+			} else {
+				err = st.SetMetadata(name, &md{V: []byte{byte(s.Val)}})
+			}
 			if b == nil {
 				note("%d: setmd %s (absent) -> %v", si, name, err)
 				continue
@@ -412,7 +499,20 @@ func run(c Case) pbt.Verdict {
 				classes["md-update-during-flush-of-same-key"] = true
 			}
 		case "delmd":
-			err := st.DeleteMetadata(name, "_vmv")
+			var err error
+			if s.During > 0 {
+				var parked, stuck bool
+				err, parked, stuck = fc.splitClientOp(func() error { return st.DeleteMetadata(name, "_vmv") }, s.W, s.During,
+					func(r string) { note("%d:   (delmd %s parked before telling the flusher) flusher %d -> %s", si, name, s.W%2, r) })
+				if stuck {
+					return pbt.Verdict{Discard: true, Classes: []string{"flusher-stuck"}}
+				}
+				if parked {
+					classes["md-update-parked-before-flusher-notification"] = true
+				}
+			} else {
+				err = st.DeleteMetadata(name, "_vmv")
+			}
 			if b == nil {
 				continue
 			}
@@ -544,7 +644,7 @@ func run(c Case) pbt.Verdict {
 func TestProp(t *testing.T) {
 	pbt.Main(t, pbt.Spec{
 		ID: "C09",
-		Rule: "rapid generates histories over 3 keys on a tiered store (disk capacity 1 MiB so disk never evicts; memory capacity 2-3 blobs): client ops {create+write, complete, set/delete metadata, delete, read, hold (open a handle and read half) / resume (read the rest through the held handle, possibly after the blob left the memory tier), memory pressure (a filler as large as the memory tier is created and deleted)} interleaved with 'advance flush goroutine 0|1 to its next scheduling point' steps (and an occasional 'run the flusher to quiescence'); background workers are stopped and the harness runs up to two flushes at a time, each on a goroutine that parks at 13 lock-free scheduling points (verif hook), so a stale flush of a deleted key can overlap the flush of its re-creation. Model: key -> absent | incomplete | complete{bytes, metadata}; after every client op and again after quiescence + memory flood: completed blobs are present, read back exactly, and metadata equals the last successful update; blobs created and not yet completed are present and not shown as completed; absent keys are invisible and can be created. non-trivial = a client op on key k executes while the flusher is parked inside a flush of k; distinct by case hash",
+		Rule: "rapid generates histories over 3 keys on a tiered store (disk capacity 1 MiB so disk never evicts; memory capacity 2-3 blobs): client ops {create+write, complete, set/delete metadata, delete, read, hold (open a handle and read half) / resume (read the rest through the held handle, possibly after the blob left the memory tier), memory pressure (a filler as large as the memory tier is created and deleted)} interleaved with 'advance flush goroutine 0|1 to its next scheduling point' steps (and an occasional 'run the flusher to quiescence'); background workers are stopped and the harness runs up to two flushes at a time, each on a goroutine that parks at 13 lock-free scheduling points (verif hook), so a stale flush of a deleted key can overlap the flush of its re-creation; one metadata update in three is itself parked between its update in memory and the flusher being told about it while a flush goroutine moves 1-4 steps. Model: key -> absent | incomplete | complete{bytes, metadata}; after every client op and again after quiescence + memory flood: completed blobs are present, read back exactly, and metadata equals the last successful update; blobs created and not yet completed are present and not shown as completed; absent keys are invisible and can be created. non-trivial = a client op on key k executes while the flusher is parked inside a flush of k; distinct by case hash",
 		Assumptions: []string{
 			"interleavings are owned at the granularity of the hook's scheduling points (all outside critical sections); at most two flushes in flight (kraken's default is 10 workers)",
 			"disk never evicts in this configuration, so any disappearance of a completed blob is a loss",
